@@ -38,6 +38,7 @@ import (
 	"github.com/tdewolff/minify/v2"
 	mcss "github.com/tdewolff/minify/v2/css"
 	mhtml "github.com/tdewolff/minify/v2/html"
+	mjs "github.com/tdewolff/minify/v2/js"
 	msvg "github.com/tdewolff/minify/v2/svg"
 	mxml "github.com/tdewolff/minify/v2/xml"
 	xhtml "golang.org/x/net/html"
@@ -558,6 +559,26 @@ func flatten(doc []byte, tag string) []int {
 	}
 }
 
+// textAfterEnd returns the raw source of the text token that directly follows the first end tag named tag.
+func textAfterEnd(doc []byte, tag string) ([]byte, bool) {
+	z := xhtml.NewTokenizer(bytes.NewReader(doc))
+	for {
+		tt := z.Next()
+		if tt == xhtml.ErrorToken {
+			return nil, false
+		}
+		if tt == xhtml.EndTagToken {
+			n, _ := z.TagName()
+			if string(n) == tag {
+				if z.Next() == xhtml.TextToken {
+					return append([]byte{}, z.Raw()...), true
+				}
+				return nil, false
+			}
+		}
+	}
+}
+
 // textAfterStart returns the raw source of the text token that directly follows the first
 // start tag named tag.
 func textAfterStart(doc []byte, tag string) ([]byte, bool) {
@@ -604,6 +625,52 @@ func probeTags(tags []string) {
 				out, errs := htmlMin(c.o, in)
 				emit(fmt.Sprintf("tagprobe|%s|%d|%s", c.name, fi+1, tag), obj{"kind": "tagprobe", "tag": tag, "cfg": c.name, "form": fi + 1,
 					"in": in, "out": string(out), "err": errs, "inflat": flatten([]byte(in), tag), "flat": flatten(out, tag)})
+			}
+			// the element box in inline flow: every combination of a blank before the start tag, after it, before the
+			// end tag and after it; and a block child as fallback content
+			for mask := 0; mask < 16; mask++ {
+				if !thorough && c.name != "keeptags" {
+					continue
+				}
+				b := func(i int) string {
+					if mask&(1<<i) != 0 {
+						return " "
+					}
+					return ""
+				}
+				in := "<p>1" + b(0) + "<" + tag + ">" + b(1) + "2" + b(2) + "</" + tag + ">" + b(3) + "3</p>"
+				out, errs := htmlMin(c.o, in)
+				emit(fmt.Sprintf("sideprobe|%s|%d|%s", c.name, mask, tag), obj{"kind": "sideprobe", "tag": tag, "cfg": c.name, "form": mask,
+					"in": in, "out": string(out), "err": errs, "inflat": flatten([]byte(in), tag), "flat": flatten(out, tag)})
+			}
+			for fi, in := range []string{"<p>1 <" + tag + " src=a><p>f</p></" + tag + "> 3", "<div>1 <" + tag + "><div>f</div> </" + tag + "> 3</div>"} {
+				out, errs := htmlMin(c.o, in)
+				emit(fmt.Sprintf("sideprobe|%s|b%d|%s", c.name, fi, tag), obj{"kind": "sideprobe", "tag": tag, "cfg": c.name, "form": 100 + fi,
+					"in": in, "out": string(out), "err": errs, "inflat": flatten([]byte(in), tag), "flat": flatten(out, tag)})
+			}
+			// text directly after the element (empty, and with content) inside a non-raw parent: must be handled as
+			// normal text, with and without JS/CSS minifiers registered
+			for fi, body := range []string{"", "x"} {
+				for _, reg := range []bool{false, true} {
+					in := "<div><" + tag + ">" + body + "</" + tag + ">1  &quot;  2</div>"
+					var out []byte
+					var errs string
+					if reg {
+						if c.name != "keeptags" {
+							continue
+						}
+						out, errs = mimeMin("text/html", in)
+					} else {
+						out, errs = htmlMin(c.o, in)
+					}
+					inraw, infound := textAfterEnd([]byte(in), tag)
+					outraw, found := textAfterEnd(out, tag)
+					if !found {
+						outraw, found = textAfterStart(out, "div")
+					}
+					emit(fmt.Sprintf("rawafter|%s|%d|%v|%s", c.name, fi, reg, tag), obj{"kind": "rawafter", "tag": tag, "cfg": c.name, "reg": reg,
+						"in": in, "out": string(out), "err": errs, "found": found && infound, "inraw": lib.Bytes(inraw), "outraw": lib.Bytes(outraw)})
+				}
 			}
 			in := "<" + tag + ">1  &quot;  2</" + tag + ">"
 			out, errs := htmlMin(c.o, in)
@@ -1078,6 +1145,8 @@ func main() {
 	}
 	mAll = minify.New()
 	mAll.AddFunc("text/css", mcss.Minify)
+	mAll.Add("text/html", &mhtml.Minifier{KeepEndTags: true, KeepDocumentTags: true})
+	mAll.AddFuncRegexp(regexp.MustCompile("^(application|text)/(x-)?(java|ecma)script$"), mjs.Minify)
 	mAll.AddFunc("image/svg+xml", msvg.Minify)
 	mAll.AddFunc("text/xml", mxml.Minify)
 
